@@ -2918,6 +2918,68 @@ func c13r17(c *Ctx, r *Report) {
 	r.floor("sends of load / zero / one in UpdateList", n, 3)
 }
 
+// c08r28: while the search is disabled the coordinator keeps the query that was last searched; it forgets it
+// when the input is replaced (a reload: the major revision changes), not when --tail trims the list (a minor
+// bump). The two places of Run that take a new snapshot have to agree on that (D103: the EvtSearchNew branch
+// compared the revisions with != where the EvtReadNew branch asks compatible(): whether the kept filter survived
+// depended on whether some request happened to take the snapshot in which a trim occurred — 25 or 50 lines for
+// the same final state).
+func c08r28(c *Ctx, r *Report) {
+	l := c.L
+	r.rule("C08-R28", "E (sibling sites: when the kept query is forgotten)", "P1",
+		"in the event loop of Run, every store of an empty slice into the coordinator's `query` variable is control dependent on a call of revision.compatible",
+		"with the search disabled, the list shown after loading depends on the timing of unrelated requests relative to --tail trims, not on the final state")
+	run := l.Fn("fzf", "Run")
+	comp := l.Fn("fzf", "revision.compatible")
+	if run == nil || comp == nil {
+		r.unest("anchors", token.NoPos, nil, "anchors Run / revision.compatible", "cannot resolve")
+		return
+	}
+	cc := cdCache{}
+	n := 0
+	for _, fn := range withClosures(run) {
+		eachInstr(fn, func(in ssa.Instruction) {
+			st, ok := in.(*ssa.Store)
+			if !ok || !inLoop(st.Block()) {
+				return
+			}
+			nm, ok := st.Addr.(interface{ Name() string })
+			if !ok || nm.Name() != "query" {
+				return
+			}
+			switch st.Addr.(type) {
+			case *ssa.FreeVar, *ssa.Alloc:
+			default:
+				return
+			}
+			// an empty literal: slice of a fresh zero-length array
+			sl, ok := st.Val.(*ssa.Slice)
+			if !ok {
+				return
+			}
+			al, ok := sl.X.(*ssa.Alloc)
+			if !ok {
+				return
+			}
+			if at, ok := deref(al.Type()).Underlying().(*types.Array); !ok || at.Len() != 0 {
+				return
+			}
+			n++
+			good := false
+			for cond := range cc.of(st) {
+				for v := range backwardSlice(cond, nil, nil) {
+					if call, ok := v.(*ssa.Call); ok && call.Common().StaticCallee() == comp {
+						good = true
+					}
+				}
+			}
+			r.check(good, fmt.Sprintf("%s:reset #%d of the kept query happens on a reload only", relName(run), n), st.Pos(), fn,
+				"under !compatible(...)", "the kept query is forgotten under a condition that does not ask revision.compatible: a --tail trim (minor bump) forgets it as well")
+		})
+	}
+	r.floor("resets of the coordinator's kept query in the event loop", n, 2)
+}
+
 func round10(c *Ctx, r *Report, prop string) {
 	switch prop {
 	case "C01":
@@ -2959,6 +3021,7 @@ func round10(c *Ctx, r *Report, prop string) {
 		c08r25(c, r)
 		c08r26(c, r)
 		c08r27(c, r)
+		c08r28(c, r)
 		c13r17(c, r) // the events that announce the complete list act on the complete list
 	case "C14":
 		c14r21(c, r)
